@@ -62,7 +62,9 @@ BASES = "ACGT"
 
 def plan(tier, seed):
     k = 1 if tier == "quick" else 10
-    return [{"name": "s%02d" % i, "shard": i, "fn_cases": 400 * k, "prog_cases": 40 * k, "timeout": 6000} for i in range(16)]
+    specs = [{"name": "s%02d" % i, "shard": i, "fn_cases": 400 * k, "prog_cases": 40 * k, "timeout": 6000} for i in range(16)]
+    specs += [{"name": "bam%d" % i, "kind": "bam", "shard": 100 + i, "datasets": 2 * k, "timeout": 6000} for i in range(4)]
+    return specs
 
 
 def required(tier):
@@ -74,6 +76,7 @@ def required(tier):
         "helper_gp_with_excluded_mass": 300, "prog_cases": 150, "prog_refmasked_cases": 20, "prog_alt_listing_checked": 150,
         "prog_gt_checked": 300, "prog_gt_with_missing": 40, "prog_afp_checked": 150, "prog_gp_checked": 60,
         "prog_gp_with_excluded_mass": 15, "prog_record_lines_checked": 100, "prog_exact_threshold_cases": 20,
+        "bam_records_checked": 20, "bam_membership_decided": 40, "bam_gt_checked": 40,
     }
 
 
@@ -810,7 +813,87 @@ def run_prog_case(case, col, drop_gp=False):
 # shard / replay
 
 
+def run_bam(tier, seed, spec, col):
+    """Real `mchap assemble` on generated BAMs: the posteriors handed to call_posterior_haplotypes are captured
+    (module-level name wrapped from the harness) and the emitted ALT / REFMASKED / GT judged by the same oracle."""
+    import shutil
+
+    from mchap.application import assemble as ASM
+
+    from vlib import cli, datasets, env, monitors, vcfparse
+
+    for d in range(spec["datasets"]):
+        rng = gen.rng_for(seed, ID, spec["shard"], d)
+        root = env.workdir("c13-%s-%d" % (spec["name"], d))
+        shutil.rmtree(root, ignore_errors=True)
+        ploidy = int(rng.choice([2, 4]))
+        ds = datasets.make_dataset(rng, root, n_samples=int(rng.integers(1, 4)), n_loci=int(rng.integers(3, 6)), ploidy=[ploidy], depth=(3, 14),
+                                   contig_len=700, snv_range=(1, 4), hostile=0.1)
+        thr = float(rng.choice([0.0, 0.05, 0.2, 0.5, 0.9, 1.0])) if rng.random() < 0.7 else float(rng.uniform(0, 1))
+        captured = []
+        real = ASM.call_posterior_haplotypes
+
+        def spy(posteriors, threshold=0.01):
+            out = real(posteriors, threshold=threshold)
+            captured.append(([{"genotypes": np.asarray(p.genotypes).tolist(), "p": [float(x) for x in p.probabilities]} for p in posteriors], float(threshold)))
+            return out
+
+        args = ["assemble", "--bam"] + ds.bams + ["--targets", ds.bed, "--variants", ds.vcf, "--reference", ds.fasta, "--ploidy", str(ploidy),
+                                                  "--mcmc-steps", "200", "--mcmc-burn", "100", "--haplotype-posterior-threshold", repr(thr)]
+        with monitors.patched((ASM, "call_posterior_haplotypes", spy)):
+            out, exc = cli.run_inproc(args)
+        case = {"kind": "bam", "dataset": [seed, spec["shard"], d], "threshold": thr}
+        col.case(case, nontrivial=True)
+        if exc is not None:
+            col.violation("call-sample-genotypes-raised", "assemble raised %r on a generated BAM dataset" % exc, case)
+            shutil.rmtree(root, ignore_errors=True)
+            continue
+        h, recs = vcfparse.parse(out)
+        if len(recs) != len(captured) or len(recs) != len(ds.loci):
+            col.inconclusive_note("captured %d posterior sets for %d records" % (len(captured), len(recs)))
+            shutil.rmtree(root, ignore_errors=True)
+            continue
+        for rec, (samples, t_seen), L in zip(recs, captured, ds.loci):
+            col.count("bam_records_checked")
+            if abs(t_seen - thr) > 1e-12:
+                col.violation("threshold-option-not-forwarded", "--haplotype-posterior-threshold %r reached call_posterior_haplotypes as %r" % (thr, t_seen), case)
+            if not L["snvs"]:
+                continue
+            E = Expect(samples, thr, False)
+            offs = [v["pos0"] - L["start"] for v in L["snvs"]]
+            alleles = [[v["ref"]] + v["alts"] for v in L["snvs"]]
+
+            def encode(seq):
+                return tuple(al.index(seq[o]) for o, al in zip(offs, alleles))
+
+            try:
+                rows = [encode(rec.ref)] + [encode(a) for a in rec.alts]
+            except ValueError:
+                col.violation("alt-uses-base-not-in-variants", "record %s:%d has an ALT base that is not an allele of the input SNVs" % (rec.chrom, rec.pos), case)
+                continue
+            found = check_listing(E, rows, "REFMASKED" not in rec.info, col, prefix="bam_")
+            for mech, msg in found:
+                col.violation(mech, "assemble %s:%d (threshold %r): %s" % (rec.chrom, rec.pos, thr, msg), case)
+            labels = {r: i for i, r in enumerate(rows)}
+            if "REFMASKED" in rec.info:
+                labels.pop(rows[0], None)
+            for smp, sample in zip(h.samples, samples):
+                gt, _ = rec.gt(smp)
+                obs = [(-1 if a is None else a) for a in gt]
+                col.count("bam_gt_checked")
+                if "REFMASKED" in rec.info and 0 in obs:
+                    col.violation("gt-uses-masked-reference", "assemble %s:%d sample %s GT %s although REFMASKED" % (rec.chrom, rec.pos, smp, gt), case)
+                cands = [expected_gt(g, labels) for g in mode_candidates(sample, False)]
+                if obs not in cands:
+                    col.violation("gt-does-not-encode-genotype-with-unlisted-as-missing", "assemble %s:%d sample %s GT %s; acceptable %s" % (rec.chrom, rec.pos, smp, obs, cands[:3]), case)
+        if d == 0 and spec["shard"] == 100:
+            col.sample({"bam_case": case, "records": len(recs), "first_alts": recs[0].alts[:3] if recs else None})
+        shutil.rmtree(root, ignore_errors=True)
+
+
 def run_shard(tier, seed, spec, col):
+    if spec.get("kind") == "bam":
+        return run_bam(tier, seed, spec, col)
     sh = spec["shard"]
     for i in range(spec["fn_cases"]):
         rng = gen.rng_for(seed, ID, sh, i)
@@ -828,7 +911,9 @@ def run_shard(tier, seed, spec, col):
 
 def replay(obj, col):
     case = obj["case"]
-    if case["kind"] == "fn":
+    if case["kind"] == "bam":
+        col.inconclusive_note("BAM-driven cases: rerun the tier with the same VERIF_SEED")
+    elif case["kind"] == "fn":
         run_fn_case(case, col)
     else:
         run_prog_case(case, col)
